@@ -20,6 +20,31 @@ MANUAL_LINE = {
     ("cons_problem.ConstrainedProblem.create_slacks", 42): "`lb != 0.0` -> `ub != 0.0` on the branch lb == ub - equivalent",
     ("step.solver.step_solver.StepResult._compute_xn", 35): "tie case xn == var_lb assigns the value xn already has (and dx = x - lb = dx) - equivalent over the reals and in floating point",
 }
+EQ_ASSERT = "assert made weaker / compared against the other of two equal-shape, ordered bound arrays - equivalent on every state the callers can produce"
+MANUAL_LINE.update({
+    ("cons_problem.ConstrainedProblem.create_slacks", 32): "shape taken from / compared with the other of two arrays of equal shape (asserted) - equivalent",
+    ("cons_problem.ConstrainedProblem.create_slacks", 33): "shape taken from / compared with the other of two arrays of equal shape (asserted) - equivalent",
+    ("cons_problem.ConstrainedProblem.create_slacks", 44): "`-lb` -> `-ub` on the branch lb == ub - equivalent",
+    ("cons_problem.ConstrainedProblem.__init__", 23): "concatenation with an empty slack array when there is no slack - equivalent",
+    ("step.solver.extended_step_solver.ExtendedStepSolver._compute_deriv", 43): EQ_ASSERT,
+    ("step.solver.scaled_step_solver.ScaledStepSolver.solve", 95): EQ_ASSERT,
+    ("implicit_func.StepFunc.compute_active_set_box", 42): EQ_ASSERT,
+    ("implicit_func.StepFunc.apply_project_deriv", 92): EQ_ASSERT,
+    ("implicit_func.StepFunc.apply_project_deriv", 82): EQ_ASSERT,
+    ("implicit_func.StepFunc.apply_project_deriv", 83): EQ_ASSERT,
+    ("implicit_func.StepFunc.apply_project_deriv", 87): EQ_ASSERT,
+    ("implicit_func.StepFunc.apply_project_deriv", 91): EQ_ASSERT,
+    ("implicit_func.StepFunc.apply_project_deriv", 94): EQ_ASSERT,
+    ("step.solver.asymmetric_step_solver.AsymmetricStepSolver.overwrite_active_rows", 72): "sortedness assert on the column indices of a canonical CSR row (strictly increasing anyway) - equivalent",
+    ("step.solver.asymmetric_step_solver.AsymmetricStepSolver.overwrite_active_rows", 74): "assert on column indices made weaker - equivalent on every reachable state",
+    ("step.solver.step_solver.StepResult._compute_xn", 39): "tie case xn == var_ub assigns the value xn already has - equivalent",
+    ("solver.Solver._check_terminate", 201): "`obj <= limit` -> `obj < limit`: Unbounded is then declared on a subset of the states C02 allows - inside the property",
+    ("iterate.Iterate.locally_infeasible", 134): "`<=` -> `<` on the stationarity test: LocallyInfeasible declared on a subset of the states C02 allows - inside the property",
+    ("scale.scale_symmetric", 29): "placeholder for an all-zero column (1.0 -> 2.0): sqrt and frexp give weight 0 either way; C20 speaks about non-zero columns - equivalent",
+    ("scale.scale_symmetric", 19): "iteration cap of the equilibration (more sweeps before the deliberate failure) - no property fixes it",
+    ("solver.Solver._compute_step", 100): "sentinel in `assert rho != -1.0` - equivalent",
+    ("iterate.Iterate.check_eval", 206): "constraints of a problem without constraints are evaluated too (empty values, cannot fault) - equivalent",
+})
 RULES = [
     (r"^display\.|Solver\.print_result|display_step|print_problem_stats", "display / logging only (row layout, widths, what is printed): the format obligations still hold"),
     (r"Iterate\.(obj_nonlin|cons_nonlin)", "displayed nonlinearity measures (display only)"),
@@ -42,13 +67,18 @@ def main():
             continue  # the first trial run (different sampler)
         for l in open(f):
             r = json.loads(l); r["seed"] = seed; rows.append(r)
+    rows = [r for r in rows if "error" not in r]
+    focused = [r for r in rows if r["tests_pass"] is None]  # exhaustive sweep of the property-critical functions, units only
+    rows = [r for r in rows if r["tests_pass"] is not None]
     tests_kill = [r for r in rows if not r["tests_pass"]]
     passing = [r for r in rows if r["tests_pass"]]
     killed = [r for r in passing if r.get("killed_by")]
     surv = [r for r in passing if not r.get("killed_by")]
     both = sum(1 for r in tests_kill if r.get("killed_by"))
     cats = collections.Counter(); table = []; untriaged = 0
-    for r in surv:
+    f_killed = [r for r in focused if r.get("killed_by")]
+    f_surv = [r for r in focused if not r.get("killed_by")]
+    for r in surv + f_surv:
         fn = short(r["function"]); reason = MANUAL.get((fn, r["mutation"])) or MANUAL_LINE.get((fn, r["line"]))
         if reason is None:
             for pat, why in RULES:
@@ -59,9 +89,10 @@ def main():
         cats[reason] += 1
         table.append((fn, r["line"], r["kind"], (r.get("before") or "").strip()[:90], (r.get("after") or "").strip()[:90], reason.split(":")[0].split("(")[0].strip()[:60]))
     out = ["# Mutation sweep - triage of the survivors (generated by bin/mutation_triage.py; categories assigned by rule, each rule checked by hand on its members)", "",
-           f"{len(rows)} mutants (seeds {', '.join(sorted({r['seed'] for r in rows}, key=int))}, `bin/mutation_sweep.py`), only in functions whose real body some unit executes.", "",
+           f"{len(rows)} sampled mutants (seeds {', '.join(sorted({r['seed'] for r in rows}, key=int))}, `bin/mutation_sweep.py`), only in functions whose real body some unit executes.", "",
            f"* killed by the repository's test suite: {len(tests_kill)}" + (f" (of these the units also fail on {both})" if both else ""),
            f"* pass the test suite: {len(passing)}; of these **{len(killed)} are killed by a proof unit**, {len(surv)} survive both", "",
+           f"* focused sweep (seed 21: EVERY candidate mutation in the property-critical functions - controllers, penalty policies, termination gate, iterate residuals, projection, transformation / scaling / slack code, step solvers, linear-solver wrappers, derivative checker; the test suite is not run): {len(focused)} mutants, **{len(f_killed)} killed by a proof unit**, {len(f_surv)} survive", "",
            "Survivors by reason (none of them violates a listed property" + (f"; {untriaged} UNTRIAGED" if untriaged else "") + "):", ""]
     for why, k in cats.most_common():
         out.append(f"* {k} x {why}")
@@ -69,5 +100,5 @@ def main():
     for fn, ln, kind, b, a, why in table:
         out.append(f"| {fn} | {ln} | {kind} | `{b}` -> `{a}` | {why} |")
     open(os.path.join(ROOT, "mutation", "TRIAGE.md"), "w").write("\n".join(out) + "\n")
-    print(len(rows), "mutants;", len(tests_kill), "killed by tests;", len(passing), "pass;", len(killed), "killed by units;", len(surv), "survive;", untriaged, "untriaged")
+    print(len(focused), "focused;", len(f_killed), "killed;", len(f_surv), "survive;", len(rows), "mutants;", len(tests_kill), "killed by tests;", len(passing), "pass;", len(killed), "killed by units;", len(surv), "survive;", untriaged, "untriaged")
 main()
